@@ -489,6 +489,33 @@ func (h *vHist) richState() []int {
 }
 
 
+// lateState is a tree whose branches were created in decreasing fork-height order (the opposite of
+// richState), one header short of a tie between the two side branches:
+//
+//	G - m1 - m2 - m3
+//	     \    \
+//	      \    a1-a2      (created first, best chain)
+//	       b1-b2          (created afterwards, forks lower)
+func (h *vHist) lateState() []int {
+	var idx []int
+	add := func(parent, weight int) int {
+		i, err := h.scripted(parent, weight)
+		if err != nil {
+			verifAssert(false, "late-state-setup-refused")
+		}
+		idx = append(idx, i)
+		return i
+	}
+	m1 := add(0, 0)
+	m2 := add(m1, 0)
+	add(m2, 0) // m3
+	a1 := add(m2, 0)
+	add(a1, 0) // a2
+	b1 := add(m1, 0)
+	add(b1, 0) // b2
+	return idx
+}
+
 // longState builds (for runs with scaled-down constants) a best chain of n unit-weight headers,
 // runs Clean so that the oldest headers are pruned from memory and written to header files, and
 // adds a two-header side branch near the tip. Symbolic steps then start from a pruned repository.
@@ -530,8 +557,16 @@ func (h *vHist) setupState() int {
 	switch {
 	case verifParam("rich", 0) == 1:
 		h.richState()
+	case verifParam("rich", 0) == 2:
+		h.lateState()
 	case verifParam("long", 0) > 0:
 		h.longState(verifParam("long", 0))
+	}
+	if verifParam("saved", 0) == 1 {
+		// the constructed state has been persisted once: storage holds its files
+		if err := h.repo.Save(h.ctx); err != nil {
+			verifAssert(false, "setup-save-failed")
+		}
 	}
 	return len(h.hdr) - before
 }
